@@ -51,8 +51,55 @@ theorem decrement_tr (m : Counter) (h : m.current < two64) :
 example : counter_increment (fromModel ⟨2, 3, 1, true⟩) = (fromModel ⟨3, 3, 1, false⟩, true) := by
   simp [counter_increment, fromModel, goWrapU]
 
+/-! ## The listener and connection wrappers (decision / effect structure)
+
+`limitListener.decrement`, `Close`, `Accept` and `limitConn.Close` are translated with the mutex, the
+condition variable, the gauges, the underlying listener / connection and the shared counter as opaque
+calls whose order is the returned trace. -/
+
+def names (tr : List (String × List String)) : List String := tr.map (·.1)
+
+/-- Releasing a slot: under the lock, the counter is decremented and then *all* waiters are woken
+(`Broadcast`, not `Signal`), and the lock is released last. -/
+theorem decrement_broadcasts (l : S_connlimiter_limitListener) :
+    names (listener_decrement l) = ["Lock", "Dec", "decrement", "Broadcast", "Unlock"] := by
+  simp [listener_decrement, names]
+
+/-- Closing a listener: a second close is refused without touching anything; the first one closes the
+underlying listener, marks the listener closed and wakes every waiter, all under the lock. -/
+theorem listener_close_releases_waiters (l : S_connlimiter_limitListener) (e : Option String) :
+    (l.isClosed = true → listener_Close l e = (l, some "net.ErrClosed", [("Lock", []), ("Unlock", [])])) ∧
+    (l.isClosed = false → (listener_Close l e).1.isClosed = true ∧ (listener_Close l e).2.1 = e ∧
+      names (listener_Close l e).2.2 = ["Lock", "Close", "Broadcast", "Unlock"]) := by
+  constructor <;> intro h <;> simp [listener_Close, h, names]
+
+/-- `Accept`: a closed listener returns `net.ErrClosed` without accepting; otherwise a failed
+underlying accept gives its slot back (one `decrement`), a successful one keeps it and hands out a
+connection. -/
+theorem accept_slot_accounting (l : S_connlimiter_limitListener) (u : Unit) (cx : AbsPtr) (closed : Bool)
+    (a : AbsPtr × Option String) :
+    let r := listener_Accept l u cx closed a
+    (closed = true → r.1 = false ∧ r.2.1 = some "net.ErrClosed" ∧ "Accept" ∉ names r.2.2 ∧ "decrement" ∉ names r.2.2) ∧
+    (closed = false → a.2 ≠ none → r.1 = false ∧ r.2.1 = a.2 ∧ (names r.2.2).count "decrement" = 1) ∧
+    (closed = false → a.2 = none → r.1 = true ∧ r.2.1 = none ∧ "decrement" ∉ names r.2.2) := by
+  cases closed <;> cases h : a.2 <;> simp [listener_Accept, h, names]
+
+/-- A connection is released exactly once however often it is closed: the slot is given back iff this
+call won the atomic `CompareAndSwap(false, true)`; every other call returns `net.ErrClosed` and touches
+neither the connection nor the counter. -/
+theorem conn_released_once (c : S_connlimiter_limitConn) (won : Bool) (e : Option String) (cx : AbsPtr) (life : Int) :
+    let r := conn_Close c won e cx life
+    (names r.2).head? = some "CompareAndSwap" ∧
+    (won = false → r.1 = some "net.ErrClosed" ∧ "decrement" ∉ names r.2 ∧ "Close" ∉ names r.2) ∧
+    (won = true → r.1 = e ∧ (names r.2).count "decrement" = 1 ∧ (names r.2).count "Close" = 1) := by
+  cases won <;> simp [conn_Close, names]
+
 end Agd.Tie.TrC18
 
 #print axioms Agd.Tie.TrC18.translation_complete
 #print axioms Agd.Tie.TrC18.increment_tr
 #print axioms Agd.Tie.TrC18.decrement_tr
+#print axioms Agd.Tie.TrC18.decrement_broadcasts
+#print axioms Agd.Tie.TrC18.listener_close_releases_waiters
+#print axioms Agd.Tie.TrC18.accept_slot_accounting
+#print axioms Agd.Tie.TrC18.conn_released_once
